@@ -3,6 +3,7 @@ package main
 import (
 	"fmt"
 	"reflect"
+	"sort"
 	"strconv"
 	"strings"
 
@@ -131,8 +132,9 @@ func (h *H) Step(line string) {
 				oo := oo
 				func() {
 					defer func() { _ = recover() }()
-					oo.o.Unregister(h.w)
+					oo.unregister(h.w)
 				}()
+				oo.reg = false
 			}
 			if len(log) > 1 {
 				log = append(append([]int(nil), log[1:]...), log[0])
@@ -505,11 +507,20 @@ func (h *H) Step(line string) {
 			skip()
 			return
 		}
+		// every observer registered at this point is first offered to another world (rejected; D25)
+		var ls []int
+		for l := range h.obs {
+			ls = append(ls, l)
+		}
+		sort.Ints(ls)
+		for _, l := range ls {
+			h.elsewhere(h.obs[l])
+		}
 		h.result(try(func() {
 			if toks[0] == "oreg" {
-				oo.o.Register(h.w)
+				h.regMain(oo)
 			} else {
-				oo.o.Unregister(h.w)
+				h.unregMain(oo)
 			}
 		}), "")
 	case "emit":
@@ -531,6 +542,11 @@ func (h *H) Step(line string) {
 		}), "")
 	case "reset":
 		class := try(func() { h.w.Reset() })
+		if class == "" {
+			for _, oo := range h.obs {
+				oo.reg = false
+			}
+		}
 		if class == "" {
 			h.newEpoch()
 		}
@@ -865,21 +881,46 @@ func (h *H) doObs(toks []string) {
 		}
 		return h.scratchComps(cs)
 	}
-	o := ecs.Observe(evt)
-	if cs := get("for"); len(cs) > 0 {
-		o = o.For(cs...)
+	// `typed`: through Observe1-4 when there is an instantiation for the observed components
+	var forComps []*regComp
+	var to typedObserver
+	if hasFlag(toks[3:], "typed") {
+		if s, ok := optVal(toks[3:], "for"); ok {
+			if cs, ok := h.compList(s); ok && len(cs) > 0 {
+				if ctor, ok := observerCtors[tupleKey(cs)]; ok {
+					to, forComps = ctor(evt), cs
+				}
+			}
+		}
 	}
-	if cs := get("with"); len(cs) > 0 {
-		o = o.With(cs...)
-	}
-	if cs := get("without"); len(cs) > 0 {
-		o = o.Without(cs...)
-	}
-	if hasFlag(toks[3:], "excl") {
-		o = o.Exclusive()
+	var o *ecs.Observer
+	if to != nil {
+		if cs := get("with"); len(cs) > 0 {
+			to.With(cs)
+		}
+		if cs := get("without"); len(cs) > 0 {
+			to.Without(cs)
+		}
+		if hasFlag(toks[3:], "excl") {
+			to.Exclusive()
+		}
+	} else {
+		o = ecs.Observe(evt)
+		if cs := get("for"); len(cs) > 0 {
+			o = o.For(cs...)
+		}
+		if cs := get("with"); len(cs) > 0 {
+			o = o.With(cs...)
+		}
+		if cs := get("without"); len(cs) > 0 {
+			o = o.Without(cs...)
+		}
+		if hasFlag(toks[3:], "excl") {
+			o = o.Exclusive()
+		}
 	}
 	h.poisonComps()
-	oo := &obsObj{o: o}
+	oo := &obsObj{o: o, t: to}
 	if s, ok := optVal(toks[3:], "script"); ok {
 		for _, p := range splitList(s) {
 			parts := strings.Split(p, ":")
@@ -898,13 +939,39 @@ func (h *H) doObs(toks []string) {
 		}
 	}
 	if !hasFlag(toks[3:], "nocb") {
-		o.Do(func(e ecs.Entity) {
+		cb := func(e ecs.Entity) {
 			h.log = append(h.log, logRec{kind: "cb", a: l, e: e})
 			for _, p := range oo.script {
 				h.runProbe(l, e, p)
 			}
 			h.provoke(e)
-		})
+		}
+		if to != nil {
+			names := make([]int, len(forComps))
+			for i, c := range forComps {
+				names[i] = c.info.name
+			}
+			to.Do(func(e ecs.Entity, ps []valued) {
+				// the pointers must address the components of `e`, in the order of the type parameters:
+				// compared with the ID-based access of the world the harness works on NOW
+				bad := len(ps) != len(names)
+				for i := 0; i < len(ps) && !bad; i++ {
+					rc := h.comps[names[i]]
+					if rc == nil || !h.w.Alive(e) {
+						bad = true
+						break
+					}
+					want := h.u.Get(e, rc.id)
+					bad = reflect.ValueOf(ps[i]).Pointer() != uintptr(want)
+				}
+				if bad {
+					h.log = append(h.log, logRec{kind: "badptr", a: l, e: e})
+				}
+				cb(e)
+			})
+		} else {
+			o.Do(cb)
+		}
 	}
 	h.obs[l] = oo
 	h.emit("ok")
